@@ -301,6 +301,61 @@ static void split_case(const string& s, const wstring* ws, char d, size_t ms, co
   }
 }
 
+
+// ------------------------------------------------------------------------------------------------
+// Deep nesting: chains of 1..40 simultaneously open brackets (mixed kinds, optionally a quoted string innermost),
+// a delimiter at every depth level on the way in and on the way out, balanced and off-by-one unbalanced
+// variants.  Judged by the reference scanner (unbounded vector stack).
+static void deep_nesting() {
+  static const char OPEN[4] = {'(', '[', '{', '<'}, CLOSE[4] = {')', ']', '}', '>'};
+  uint64_t case_idx = 0;
+  R::Scan sc;
+  for (unsigned depth = 1; depth <= 40; depth++) {
+    for (unsigned pattern = 0; pattern < 7; pattern++) {
+      // bracket kind per level: 0..3 = one kind only, 4 = rotating, 5/6 = rotating with a "/' quoted string innermost
+      string openers, closers;  // closers[i] closes openers[i]
+      for (unsigned lvl = 0; lvl < depth; lvl++) {
+        unsigned k = pattern < 4 ? pattern : (lvl + pattern) % 4;
+        char o = OPEN[k], c = CLOSE[k];
+        if (pattern >= 5 && lvl + 1 == depth) o = c = (pattern == 5 ? '"' : '\'');
+        openers.push_back(o);
+        closers.push_back(c);
+      }
+      for (unsigned with_delims = 0; with_delims < 2; with_delims++) {
+        // variant 0 balanced; 1 one extra opener in front; 2 outermost closer missing; 3 innermost closer missing;
+        // 4 middle closer missing; 5 one extra closer at the end (stray closer: ambiguous class)
+        for (unsigned variant = 0; variant < 6; variant++) {
+          uint64_t my = case_idx++;
+          if (!C->mine(my)) continue;
+          string s = "h,";
+          if (variant == 1) s.push_back(openers[0] == '"' || openers[0] == '\'' ? '(' : openers[0]);
+          for (unsigned lvl = 0; lvl < depth; lvl++) {
+            s.push_back(openers[lvl]);
+            s.push_back((char)('a' + lvl % 26));
+            if (with_delims) s.push_back(',');
+          }
+          for (unsigned lvl = depth; lvl-- > 0;) {
+            bool skip = (variant == 2 && lvl == 0) || (variant == 3 && lvl + 1 == depth) || (variant == 4 && lvl == depth / 2);
+            if (!skip) s.push_back(closers[lvl]);
+            if (with_delims || lvl == 0) {
+              s.push_back(',');
+              s.push_back((char)('A' + lvl % 26));
+            }
+          }
+          if (variant == 5) s += ")";
+          s += ",t";
+          R::scan_context(s, sc);
+          for (size_t ms : {(size_t)0, (size_t)1, (size_t)3}) split_case(s, nullptr, ',', ms, &sc, my, (unsigned)my);
+          const char* dcls = depth <= 15 ? "depth<=15" : depth == 16 ? "depth16" : depth == 17 ? "depth17" : depth <= 32 ? "depth18-32" : "depth33-40";
+          C->cls(fmt("split_context-deep:%s:%s:%s", dcls, sc.ambiguous ? "stray-closer" : sc.balanced ? "balanced" : "unbalanced",
+              pattern < 4 ? "one-kind" : pattern == 4 ? "mixed" : "mixed+quote"));
+          if (depth == 18 && pattern == 0 && variant == 1 && !with_delims) C->sample(fmt("deep nesting: split_context(%s, ',', 0)", esc(s, 120).c_str()));
+        }
+      }
+    }
+  }
+}
+
 static void exh_split() {
   static const char A[8] = {',', 'a', ' ', '(', ')', '"', '\\', '\0'};
   static const char DELIMS[4] = {',', ' ', 'a', '\0'};
@@ -756,6 +811,7 @@ static string gen_string(vf::Rng& r, size_t maxlen, const string& special) {
 }
 
 // balanced-by-construction input for split_context
+static int g_ctx_max_depth = 6;
 static void gen_context(vf::Rng& r, string& out, int depth, size_t budget, char delim) {
   static const char OPEN[4] = {'(', '[', '{', '<'}, CLOSE[4] = {')', ']', '}', '>'};
   size_t items = r.below(depth ? 5 : 12);
@@ -776,7 +832,7 @@ static void gen_context(vf::Rng& r, string& out, int depth, size_t budget, char 
       case 4: out.push_back(delim); break;
       case 5:
       case 6:
-        if (depth < 6) {
+        if (depth < g_ctx_max_depth) {
           int b = (int)r.below(4);
           out.push_back(OPEN[b]);
           gen_context(r, out, depth + 1, budget, delim);
@@ -861,7 +917,23 @@ static void random_part(vf::Rng& r) {
       while (R::is_context_special(d));
       string s;
       size_t budget = pick_len(r, 4096);
+      g_ctx_max_depth = r.chance(1, 4) ? 40 : 6;
       gen_context(r, s, 0, budget, d);
+      if (r.chance(1, 8)) {
+        // wrap everything in 1..40 more bracket levels
+        unsigned extra = 1 + (unsigned)r.below(40);
+        string pre, post;
+        for (unsigned k = 0; k < extra; k++) {
+          unsigned b = (unsigned)r.below(4);
+          pre.push_back("([{<"[b]);
+          post.insert(post.begin(), ")]}>"[b]);
+          if (r.chance(1, 3)) {
+            pre.push_back(d);
+            post.insert(post.begin(), d);
+          }
+        }
+        s = pre + s + post;
+      }
       if (r.chance(1, 8) && s.size() < budget) {
         // long flat tail so that big inputs occur too
         string tail = gen_string(r, budget - s.size(), string(1, d));
@@ -1199,7 +1271,10 @@ int main(int argc, char** argv) {
   if (want("printf")) printf_part(r);
   if (want("wprintf")) wprintf_part();
   if (want("join")) join_suite(r);
-  if (want("split")) exh_split();
+  if (want("split")) {
+    deep_nesting();
+    exh_split();
+  }
   if (want("trim")) exh_trim();
   if (want("comment")) exh_comment();
   if (want("misc")) exh_misc();
